@@ -3,7 +3,7 @@
 //! Coherence part: probe matches through every matcher path.
 use std::collections::HashMap;
 
-use nucleo_matcher::{chars, Matcher};
+use nucleo_matcher::chars;
 
 use crate::jobj;
 use crate::m_match::{eval_case, Case, Eval, Props};
@@ -133,7 +133,7 @@ pub fn coherence_part(opts: &Opts, rep: &mut Report) {
         c05: true,
         c10: false,
     };
-    let mut matcher = Matcher::default();
+    let mut matcher = crate::m_match::initial_matcher(opts.seed, opts.shard, 0);
     let fill: [char; 3] = ['x', '-', 'q'];
     let range: Box<dyn Iterator<Item = u32>> = match opts.replay {
         Some(u) => Box::new(u as u32..u as u32 + 1),
